@@ -14,7 +14,7 @@ namespace Crash
 
 /-- repaired variant: a negative pool count is clamped to 0 before it sizes the channel
     (hooks/C16-fix-poolcount.patch). `false` = the code as it is in /repo now. -/
-def poolCountIsFixed : Bool := false
+def poolCountIsFixed : Bool := true
 
 /-- server/control.go NewControl:
       poolCount := loginMsg.PoolCount
@@ -103,7 +103,7 @@ def firstMsg : Frame → FirstOutcome
   closes `messageChan` first and the socket second.  A sender blocked on a full channel panics
   when the channel is closed. -/
 
-def discoverIsFixed : Bool := false
+def discoverIsFixed : Bool := true
 
 def discoverBuf : Nat := 10
 
